@@ -318,7 +318,7 @@ def run(ctx: Ctx) -> int:
     can["events"][k0]["out"] = []
     badst = ctx.validate_chains("Trace_V2Stream", [{"parts": t["parts"], "events": t["events"]} for t in st] + [{"parts": can["parts"], "events": can["events"]}], name="C01_v2stream")
     if len(st) not in badst:
-        raise MachineryError("Trace_V2Stream accepted a canary")
+        ctx.defer_machinery("Trace_V2Stream accepted a canary")
     for i, clause in sorted(badst.items()):
         if i < len(st):
             ctx.violation(f"V2 stream cut at {st[i]['cuts'][:12]}", "V2 reassembly: " + clause, {"parts": st[i]["parts"], "cuts": st[i]["cuts"], "clause": clause, "v2stream": True})
@@ -350,7 +350,7 @@ def run(ctx: Ctx) -> int:
     rej = ctx.validate_vectors("Trace_C01", allv + cans)
     n = len(allv)
     if len([i for i, _ in rej if i >= n]) != len(cans):
-        raise MachineryError("Trace_C01 accepted a canary")
+        ctx.defer_machinery("Trace_C01 accepted a canary")
     ctx.extra["canaries_rejected"] = len(cans)
     ctx.extra["scenarios"] = {"main": len(vectors), "v2_segmentation": len(v2seg)}
     for i, clause in rej:
